@@ -2,7 +2,9 @@ package expr
 
 import (
 	"fmt"
+	"math"
 
+	"github.com/shopspring/decimal"
 	"github.com/verily-src/fhirpath-go/fhirpath/system"
 )
 
@@ -118,6 +120,9 @@ func EvaluateDiv(lhs, rhs system.Any) (system.Any, error) {
 	switch left := lhs.(type) {
 	case system.Integer:
 		if right, ok := rhs.(system.Integer); ok {
+			if right == 0 {
+				return nil, system.ErrDivideByZero
+			}
 			return left.Div(right), nil
 		}
 		if _, ok := rhs.(system.Quantity); ok {
@@ -126,6 +131,9 @@ func EvaluateDiv(lhs, rhs system.Any) (system.Any, error) {
 		return nil, typeMismatch(Div, lhs, rhs)
 	case system.Decimal:
 		if right, ok := rhs.(system.Decimal); ok {
+			if isZeroDecimal(right) {
+				return nil, system.ErrDivideByZero
+			}
 			return left.Div(right), nil
 		}
 		if _, ok := rhs.(system.Quantity); ok {
@@ -144,6 +152,12 @@ func EvaluateFloorDiv(lhs, rhs system.Any) (system.Any, error) {
 	switch left := lhs.(type) {
 	case system.Integer:
 		if right, ok := rhs.(system.Integer); ok {
+			if right == 0 {
+				return nil, system.ErrDivideByZero
+			}
+			if left == math.MinInt32 && right == -1 {
+				return nil, system.ErrIntOverflow
+			}
 			return left.FloorDiv(right), nil
 		}
 		if _, ok := rhs.(system.Quantity); ok {
@@ -152,6 +166,9 @@ func EvaluateFloorDiv(lhs, rhs system.Any) (system.Any, error) {
 		return nil, typeMismatch(FloorDiv, lhs, rhs)
 	case system.Decimal:
 		if right, ok := rhs.(system.Decimal); ok {
+			if isZeroDecimal(right) {
+				return nil, system.ErrDivideByZero
+			}
 			return left.FloorDiv(right)
 		}
 		if _, ok := rhs.(system.Quantity); ok {
@@ -170,6 +187,9 @@ func EvaluateMod(lhs, rhs system.Any) (system.Any, error) {
 	switch left := lhs.(type) {
 	case system.Integer:
 		if right, ok := rhs.(system.Integer); ok {
+			if right == 0 {
+				return nil, system.ErrDivideByZero
+			}
 			return left.Mod(right), nil
 		}
 		if _, ok := rhs.(system.Quantity); ok {
@@ -178,6 +198,9 @@ func EvaluateMod(lhs, rhs system.Any) (system.Any, error) {
 		return nil, typeMismatch(Mod, lhs, rhs)
 	case system.Decimal:
 		if right, ok := rhs.(system.Decimal); ok {
+			if isZeroDecimal(right) {
+				return nil, system.ErrDivideByZero
+			}
 			return left.Mod(right), nil
 		}
 		if _, ok := rhs.(system.Quantity); ok {
@@ -189,6 +212,11 @@ func EvaluateMod(lhs, rhs system.Any) (system.Any, error) {
 	default:
 		return nil, typeMismatch(Mod, lhs, rhs)
 	}
+}
+
+// isZeroDecimal reports whether the Decimal is numerically zero.
+func isZeroDecimal(d system.Decimal) bool {
+	return decimal.Decimal(d).IsZero()
 }
 
 // typeMismatch generates an unsupported operation error.
